@@ -29,6 +29,11 @@ for p in props:
         lv = os.path.join(d, 'last_run.log')
         if os.path.exists(lv) and '[check]' in open(lv).read() and 'VIOLATION' not in open(lv).read():
             missed.append(os.path.basename(d.rstrip('/')))
+vt = '/verif/seeded/VERDICTS.tsv'
+if os.path.exists(vt):
+    for l in open(vt):
+        f = l.rstrip('\n').split('\t')
+        if len(f) >= 2 and f[0][:3] in props and f[1] in ('MISSED', 'not run yet') and f[0] not in missed: missed.append(f[0])
 falsealarms = []
 for p in props:
     for d in sorted(glob.glob('/verif/benign/%s-*/' % p)):
